@@ -13,7 +13,7 @@ package sharder
 
 // The owner is the peer of the partition with the greatest rendezvous hash (the
 // earliest such partition on ties): a function of (peers, hashes, traceID) only.
-//@ contract sharder.(*DeterministicSharder).WhichShard props C17
+//@ contract sharder.(*DeterministicSharder).WhichShard props C17,C28
 //@   requires d != nil
 //@   ensures[owner-is-a-peer] exists p int :: 0 <= p && p < len(d.peers) && result == d.peers[p]
 //@   ensures[owner-is-argmax] (exists j int :: 0 <= j && j < len(d.hashes) && result == d.peers[d.hashes[j].shardIndex] && rendezvous(traceID, d.hashes[j].uhash) > 0 && (forall i int :: 0 <= i && i < len(d.hashes) ==> rendezvous(traceID, d.hashes[i].uhash) <= rendezvous(traceID, d.hashes[j].uhash))) || ((forall i int :: 0 <= i && i < len(d.hashes) ==> rendezvous(traceID, d.hashes[i].uhash) == 0) && result == d.peers[0])
